@@ -549,5 +549,54 @@ Proof.
   rewrite E in Hj. destruct Hj as [Hj|[]]. congruence.
 Qed.
 
+(* setting / clearing one bit changes the population count by one *)
+Lemma length_filter_flip {A} (f f' : A -> bool) l i :
+  NoDup l -> In i l -> f i = false -> f' i = true -> (forall j, j <> i -> f' j = f j) ->
+  length (filter f' l) = S (length (filter f l)).
+Proof.
+  induction l as [|a l IH]; intros ND Hin Hf Hf' Hs; [destruct Hin|].
+  inversion ND as [|? ? Hnot ND']; subst. cbn [filter].
+  destruct Hin as [->|Hin].
+  - rewrite Hf, Hf'. cbn [length]. f_equal. f_equal. apply filter_ext_in.
+    intros j Hj. apply Hs. intros ->. contradiction.
+  - assert (Hne : a <> i) by (intros ->; contradiction).
+    rewrite (Hs a Hne). destruct (f a); cbn [length]; rewrite (IH ND' Hin Hf Hf' Hs); reflexivity.
+Qed.
+
+Lemma popcount_set_bit x i : i < 64 -> mem i x = false ->
+  popcount (N.lor x (bit i)) = popcount x + 1.
+Proof.
+  intros Li Hm. rewrite !popcount_unfold. unfold bits_of.
+  rewrite (length_filter_flip (fun j => mem j x) (fun j => mem j (N.lor x (bit i))) squares i
+             NoDup_squares (proj2 (in_squares i) Li) Hm).
+  - lia.
+  - rewrite mem_set_bit, N.eqb_refl. reflexivity.
+  - intros j Hne. rewrite mem_set_bit. apply N.eqb_neq in Hne. rewrite Hne. reflexivity.
+Qed.
+
+Lemma popcount_flip_set_bit x i : i < 64 -> mem i x = true ->
+  popcount (N.lxor x (bit i)) + 1 = popcount x.
+Proof.
+  intros Li Hm. rewrite !popcount_unfold. unfold bits_of.
+  rewrite (length_filter_flip (fun j => mem j (N.lxor x (bit i))) (fun j => mem j x) squares i
+             NoDup_squares (proj2 (in_squares i) Li)).
+  - lia.
+  - rewrite mem_flip_bit, N.eqb_refl, Hm. reflexivity.
+  - exact Hm.
+  - intros j Hne. rewrite mem_flip_bit. apply N.eqb_neq in Hne. rewrite Hne. reflexivity.
+Qed.
+
+Lemma popcount_ext x y : (forall i, i < 64 -> mem i x = mem i y) -> popcount x = popcount y.
+Proof. intro H. rewrite !popcount_unfold, (bits_of_ext x y H). reflexivity. Qed.
+
+(* sanity checks for the tactics *)
+Example bitblast_test1 x i : mem i x = false -> N.land (N.lor x (bit i)) (bit i) = bit i.
+Proof. intro H. bitblast. Qed.
+Example bitblast_test2 x y i j : i <> j -> mem j y = true ->
+  andn (N.lor (N.lor x (bit i)) (bit j)) y = andn (N.lor x (bit i)) y.
+Proof. intros Hne H. bitblast. Qed.
+Example xor_cancel_test a b c d : N.lxor (N.lxor (N.lxor a b) (N.lxor c d)) (N.lxor b 0) = N.lxor (N.lxor d c) a.
+Proof. xor_cancel. Qed.
+
 Print Assumptions bits_of_bit.
 Print Assumptions fits64_lt.
